@@ -189,7 +189,19 @@ static const CO_IF_NVM_DRV   NvmDrv = { d_nvm_init, d_nvm_read, d_nvm_write };
 void CONodeFatalError(void)                         { printf("cb fatal\n"); }
 void COTmrLock(void)                                { LockDepth++; if (LockDepth != 1) LockBad++; }
 void COTmrUnlock(void)                              { LockDepth--; if (LockDepth != 0) LockBad++; }
-void CONmtModeChange(CO_NMT *nmt, CO_MODE mode)     { (void)nmt; printf("cb mode %d\n", (int)mode); }
+/* scripted reaction of the application inside the mode change callback ("modecb <mode> setmode <m>" / "modecb <mode> trigpdo <n>" /
+ * "modecb 0 off"): a self-starting device, a device that refuses OPERATIONAL, a status PDO sent on every mode change */
+static int McbMode, McbAct, McbArg, McbDepth;
+void CONmtModeChange(CO_NMT *nmt, CO_MODE mode)
+{
+    printf("cb mode %d\n", (int)mode);
+    if (McbAct != 0 && (int)mode == McbMode && McbDepth < 3) {
+        McbDepth++;
+        if (McbAct == 1) CONmtSetMode(nmt, (CO_MODE)McbArg);
+        else             COTPdoTrigPdo(nmt->Node->TPdo, (uint16_t)McbArg);
+        McbDepth--;
+    }
+}
 void CONmtResetRequest(CO_NMT *nmt, CO_NMT_RESET r) { (void)nmt; printf("cb resetreq %d\n", (int)r); }
 void CONmtHbConsEvent(CO_NMT *nmt, uint8_t id)      { (void)nmt; printf("cb hbevent %u %u\n", id, Tick); }
 void CONmtHbConsChange(CO_NMT *nmt, uint8_t id, CO_MODE m) { (void)nmt; printf("cb hbchange %u %d\n", id, (int)m); }
@@ -600,7 +612,7 @@ int main(void)
             step = 0;
         } else if (!strcmp(c, "lsspreset")) { LssHave = 1; LssBaud = U(1); LssNode = (uint8_t)U(2); step = 0;
         } else if (!strcmp(c, "init"))  { do_init(); Quiet = 0;
-        } else if (!strcmp(c, "restart")) { Tick = 0; HwCnt = 0; do_init();
+        } else if (!strcmp(c, "restart")) { Tick = 0; HwCnt = 0; McbAct = 0; do_init();
         } else if (!strcmp(c, "reinit")) {  /* the documented restart: stop, init and start again on the RAM as it is (no dictionary rebuild) */
             CONodeStop(Node); LockDepth = 0; RxHave = 0; CONodeInit(Node, &Spec);
         } else if (!strcmp(c, "start")) { CONodeStart(Node);
@@ -617,6 +629,7 @@ int main(void)
             uint32_t n = argc > 1 ? U(1) : 1;
             while (n--) { Tick++; (void)COTmrService(&Node->Tmr); }
         } else if (!strcmp(c, "tproc")) { COTmrProcess(&Node->Tmr);
+        } else if (!strcmp(c, "modecb")) { McbMode = (int)U(1); McbAct = !strcmp(ARG(2), "setmode") ? 1 : !strcmp(ARG(2), "trigpdo") ? 2 : 0; McbArg = argc > 3 ? (int)U(3) : 0;
         } else if (!strcmp(c, "setmode")) { CONmtSetMode(&Node->Nmt, (CO_MODE)U(1));
         } else if (!strcmp(c, "getmode")) { printf("ret %d\n", (int)CONmtGetMode(&Node->Nmt));
         } else if (!strcmp(c, "nmtreset")) { CONmtReset(&Node->Nmt, (CO_NMT_RESET)U(1));
